@@ -438,3 +438,73 @@ Proof.
 Qed.
 Lemma fd_lin_before n k m A F x : blin n k A -> length x = n -> fd k m F (A x) -> fd n m (fun y => F (A y)) x.
 Proof. intros B Hx HF. apply (fd_comp n k m F A); [apply fd_lin; assumption|exact HF]. Qed.
+
+(* ---------- the same statement in any equivalent norm, e.g. the Euclidean one ---------- *)
+Lemma resid_len n m F x L : fdiff n m F x L -> forall h, length h = n ->
+  length (vsub (vsub (F (vadd x h)) (F x)) (L h)) = m.
+Proof.
+  intros (Hx & HF & HL & _) h Hh. apply vsub_len; [apply vsub_len|]; auto.
+  apply HF. apply vadd_len; assumption.
+Qed.
+Lemma fdiff_norms n m F x L (Nd Nr : Rvec -> R) a b : 0 < a -> 0 < b ->
+  (forall h, length h = n -> supn h <= a * Nd h) ->
+  (forall v, length v = m -> Nr v <= b * supn v) ->
+  fdiff n m F x L ->
+  forall eps, 0 < eps -> exists delta, 0 < delta /\
+    forall h, length h = n -> Nd h < delta ->
+      Nr (vsub (vsub (F (vadd x h)) (F x)) (L h)) <= eps * Nd h.
+Proof.
+  intros Ha Hb Hd Hr HF eps He.
+  assert (Hab : 0 < a * b) by (apply Rmult_lt_0_compat; assumption).
+  set (e' := eps / (a * b)). assert (He' : 0 < e') by (unfold e'; apply Rdiv_lt_0_compat; assumption).
+  destruct (fdiff_norm _ _ _ _ _ HF e' He') as (dl & Hdl & H).
+  exists (dl / a). split; [apply Rdiv_lt_0_compat; assumption|]. intros h Hh Hlt.
+  pose proof (Hd h Hh) as H1. pose proof (supn_nonneg h) as H0.
+  assert (Hs : supn h < dl).
+  { eapply Rle_lt_trans; [exact H1|]. replace dl with (a * (dl / a)) by (field; lra).
+    apply Rmult_lt_compat_l; assumption. }
+  specialize (H h Hh Hs). pose proof (Hr _ (resid_len _ _ _ _ _ HF h Hh)) as H2.
+  eapply Rle_trans; [exact H2|].
+  apply Rle_trans with (b * (e' * (a * Nd h))).
+  - apply Rmult_le_compat_l; [lra|]. eapply Rle_trans; [exact H|]. apply Rmult_le_compat_l; lra.
+  - replace (b * (e' * (a * Nd h))) with (eps * Nd h) by (unfold e'; field; lra). lra.
+Qed.
+
+Definition norm2 (v : Rvec) : R := sqrt (dot v v).
+Lemma supn_le_norm2 v : supn v <= norm2 v.
+Proof.
+  unfold norm2. induction v as [|a v IH]; [cbn [supn]; apply sqrt_pos|].
+  rewrite dot_cons. cbn [supn]. pose proof (dot_self_nonneg v).
+  apply Rmax_lub.
+  - rewrite <- sqrt_Rsqr_abs. apply sqrt_le_1_alt. unfold Rsqr. lra.
+  - eapply Rle_trans; [exact IH|]. apply sqrt_le_1_alt. nra.
+Qed.
+Lemma dot_le_supn v : dot v v <= INR (length v) * (supn v * supn v).
+Proof.
+  induction v as [|a v IH]; [cbn; numR; lra|].
+  rewrite dot_cons. cbn [length supn]. rewrite S_INR.
+  set (M := Rmax (Rabs a) (supn v)).
+  assert (H1 : Rabs a <= M) by apply Rmax_l. assert (H2 : supn v <= M) by apply Rmax_r.
+  pose proof (Rabs_pos a). pose proof (supn_nonneg v). pose proof (pos_INR (length v)).
+  assert (Ha : a * a <= M * M).
+  { replace (a * a) with (Rabs a * Rabs a) by (unfold Rabs; destruct (Rcase_abs a); ring). nra. }
+  assert (Hv : supn v * supn v <= M * M) by nra.
+  assert (INR (length v) * (supn v * supn v) <= INR (length v) * (M * M)) by (apply Rmult_le_compat_l; assumption).
+  lra.
+Qed.
+Lemma norm2_le_supn v : norm2 v <= sqrt (INR (length v)) * supn v.
+Proof.
+  unfold norm2. pose proof (supn_nonneg v). pose proof (pos_INR (length v)).
+  replace (supn v) with (sqrt (supn v * supn v)) at 1 by (apply sqrt_square; assumption).
+  rewrite <- sqrt_mult by nra. apply sqrt_le_1_alt. apply dot_le_supn.
+Qed.
+
+Lemma fdiff_norm2 n m F x L : fdiff n m F x L ->
+  forall eps, 0 < eps -> exists delta, 0 < delta /\
+    forall h, length h = n -> norm2 h < delta ->
+      norm2 (vsub (vsub (F (vadd x h)) (F x)) (L h)) <= eps * norm2 h.
+Proof.
+  apply (fdiff_norms n m F x L norm2 norm2 1 (sqrt (INR m) + 1)); [lra|pose proof (sqrt_pos (INR m)); lra| |].
+  - intros h _. rewrite Rmult_1_l. apply supn_le_norm2.
+  - intros v Hv. eapply Rle_trans; [apply norm2_le_supn|]. rewrite Hv. pose proof (supn_nonneg v). nra.
+Qed.
